@@ -212,3 +212,125 @@ Proof.
   intros cmp key es pos found H. unfold search in H.
   apply bsearch_bound in H; [exact H|lia|lia|lia].
 Qed.
+
+(* ---------- adjacent positions ---------- *)
+Lemma split_adj : forall A (l : list A) j a b, nth_error l j = Some a -> nth_error l (S j) = Some b ->
+  exists l1 l2, l = l1 ++ a :: b :: l2 /\ length l1 = j.
+Proof.
+  intros A l j a b Ha Hb. destruct (split_nth _ _ _ _ Ha) as (l1 & l2 & -> & Hl). subst j.
+  rewrite nth_error_app2 in Hb by lia. replace (S (length l1) - length l1)%nat with 1%nat in Hb by lia.
+  destruct l2 as [|b' l2]; [discriminate|]. cbn in Hb. injection Hb as ->. exists l1, l2. auto.
+Qed.
+
+Lemma replace_at_adj_lo : forall A (l1 l2 : list A) a b x, replace_at (length l1) x (l1 ++ a :: b :: l2) = l1 ++ x :: b :: l2.
+Proof. intros. apply replace_at_app. Qed.
+
+Lemma replace_at_adj_hi : forall A (l1 l2 : list A) a b x, replace_at (S (length l1)) x (l1 ++ a :: b :: l2) = l1 ++ a :: x :: l2.
+Proof.
+  intros A l1 l2 a b x. replace (l1 ++ a :: b :: l2) with ((l1 ++ [a]) ++ b :: l2) by (rewrite <- app_assoc; reflexivity).
+  replace (S (length l1)) with (length (l1 ++ [a])) by (rewrite app_length; cbn; lia).
+  rewrite replace_at_app. rewrite <- app_assoc. reflexivity.
+Qed.
+
+Lemma remove_at_adj_lo : forall A (l1 l2 : list A) a b, remove_at (length l1) (l1 ++ a :: b :: l2) = l1 ++ b :: l2.
+Proof. intros. apply remove_at_app. Qed.
+
+Lemma remove_at_adj_hi : forall A (l1 l2 : list A) a b, remove_at (S (length l1)) (l1 ++ a :: b :: l2) = l1 ++ a :: l2.
+Proof.
+  intros A l1 l2 a b. replace (l1 ++ a :: b :: l2) with ((l1 ++ [a]) ++ b :: l2) by (rewrite <- app_assoc; reflexivity).
+  replace (S (length l1)) with (length (l1 ++ [a])) by (rewrite app_length; cbn; lia).
+  rewrite remove_at_app. rewrite <- app_assoc. reflexivity.
+Qed.
+
+(* ---------- a structured reading of rebalance_child ---------- *)
+Definition bl_pair (lcs ccs : list node) : list node * list node :=
+  match lcs with
+  | [] => (lcs, ccs)
+  | _ => match last_opt lcs with
+         | Some lc => (removelast lcs, lc :: ccs)
+         | None => (lcs, ccs)
+         end
+  end.
+Definition br_pair (rcs ccs : list node) : list node * list node :=
+  match rcs with
+  | [] => (rcs, ccs)
+  | rc :: rcs' => (rcs', ccs ++ [rc])
+  end.
+
+Lemma bl_pair_nil : forall ccs, bl_pair [] ccs = ([], ccs).
+Proof. reflexivity. Qed.
+Lemma bl_pair_snoc : forall l x ccs, bl_pair (l ++ [x]) ccs = (l, x :: ccs).
+Proof.
+  intros l x ccs. unfold bl_pair. rewrite last_opt_app, removelast_last.
+  destruct (l ++ [x]) eqn:E; [destruct l; discriminate|reflexivity].
+Qed.
+
+Section Reb.
+Variable m : nat.
+
+Definition left_sib (cs : list node) (i : nat) : option node :=
+  if (1 <=? i)%nat then nth_error cs (i - 1) else None.
+
+Definition borrow_left_f (es : list entry) (cs : list node) (i : nat) (ces : list entry) (ccs : list node) : option node :=
+  match left_sib cs i with
+  | Some (N les lcs) =>
+    if (minEntries m <? length les)%nat then
+      match nth_error es (i - 1), last_opt les with
+      | Some sep, Some le =>
+        let '(lcs', ccs') := bl_pair lcs ccs in
+        Some (N (replace_at (i - 1) le es)
+                (replace_at i (N (sep :: ces) ccs') (replace_at (i - 1) (N (removelast les) lcs') cs)))
+      | _, _ => None
+      end
+    else None
+  | None => None
+  end.
+
+Definition borrow_right_f (es : list entry) (cs : list node) (i : nat) (ces : list entry) (ccs : list node) : option node :=
+  match nth_error cs (S i) with
+  | Some (N res rcs) =>
+    if (minEntries m <? length res)%nat then
+      match nth_error es i, res with
+      | Some sep, re :: res' =>
+        let '(rcs', ccs') := br_pair rcs ccs in
+        Some (N (replace_at i re es)
+                (replace_at (S i) (N res' rcs') (replace_at i (N (ces ++ [sep]) ccs') cs)))
+      | _, _ => None
+      end
+    else None
+  | None => None
+  end.
+
+Definition merge_f (es : list entry) (cs : list node) (i : nat) (ces : list entry) (ccs : list node) : option node :=
+  match nth_error cs (S i), left_sib cs i with
+  | Some (N res rcs), _ =>
+    match nth_error es i with
+    | Some sep =>
+      Some (N (remove_at i es) (remove_at (S i) (replace_at i (N (ces ++ sep :: res) (ccs ++ rcs)) cs)))
+    | None => None
+    end
+  | None, Some (N les lcs) =>
+    match nth_error es (i - 1) with
+    | Some sep =>
+      Some (N (remove_at (i - 1) es) (remove_at (i - 1) (replace_at i (N (les ++ sep :: ces) (lcs ++ ccs)) cs)))
+    | None => None
+    end
+  | None, None => Some (N es cs)
+  end.
+
+Lemma rebalance_child_eq : forall es cs i,
+  rebalance_child m es cs i =
+  match nth_error cs i with
+  | None => None
+  | Some (N ces ccs) =>
+    if (minEntries m <=? length ces)%nat then Some (N es cs)
+    else match borrow_left_f es cs i ces ccs with
+         | Some r => Some r
+         | None => match borrow_right_f es cs i ces ccs with
+                   | Some r => Some r
+                   | None => merge_f es cs i ces ccs
+                   end
+         end
+  end.
+Proof. reflexivity. Qed.
+End Reb.
